@@ -86,7 +86,8 @@ def plan(tier, seed):
 
 def _large_cfgs(tier):
     """Size ladder far beyond the exhaustive bound: weights/outputs of 2^18 .. 2^22+ elements with non power-of-two dimensions."""
-    cfgs = [("lin", 4, 1152, 3700), ("lin", 128, 264, 2056), ("lin", 3, 2048, 2056), ("mm", 256, 256, 256), ("repeat", 48 if tier == "quick" else 300, 32, 9)]
+    cfgs = [("lin", 4, 1152, 3700), ("lin", 128, 264, 2056), ("lin", 3, 2048, 2056), ("mm", 256, 256, 256), ("repeat", 48 if tier == "quick" else 300, 32, 9),
+            ("lin", 4101, 40, 9), ("live", 160 if tier == "quick" else 600, 16, 5)]
     if tier == "thorough":
         cfgs += [("lin", 2, 4224, 1000), ("lin", 520, 520, 520), ("lin", 1, 1024, 4100), ("mm", 264, 248, 272), ("mm", 1032, 16, 1040)]
     return cfgs
@@ -615,6 +616,36 @@ def _large_task(task, out):
                 out["violations"].append(violation(PID, case, dict(fields, sub=sub), f"{sub}: {msg}"))
         pending.clear()
 
+    if what == "live":
+        # many live objects: n layers, each with its own weight / scales, all kept alive and evaluated in several passes (caches
+        # keyed on object identity or slot tables that wrap must not hand one layer the data of another)
+        from optimum.quanto import quantize_weight
+
+        layers = []
+        for i in range(n):
+            codes = _pattern(N * K, -4, 4, i).reshape(N, K)
+            sc = (2.0 ** (((torch.arange(N) + i) % 5) - 3).to(torch.float64)).to(dt).reshape(N, 1)
+            data = codes.to(torch.int8)
+            w_c = QBytesTensor(num.qt("qint8"), 0, data.size(), data.stride(), data, sc)
+            # the same kind of weight held non-contiguously (quantized from a transposed matrix)
+            dt_ = codes.t().contiguous().to(torch.int8).t()
+            w_t = QBytesTensor(num.qt("qint8"), 0, dt_.size(), dt_.stride(), dt_, sc.clone())
+            xq, xq64, _, _ = _act("qint8", (2, K), dt, "exact", i)
+            xq = QBytesTensor(xq.qtype, None, xq._data.size(), xq._data.stride(), xq._data, (xq._scale * (1 + i % 3)).to(dt))
+            xq64 = num.decode_codes(xq._data, "qint8") * xq._scale.to(torch.float64)
+            xf, xf64, _, _ = _act("float", (2, K), dt, "exact", i)
+            layers.append((i, w_c, w_t, codes.to(torch.float64) * sc.to(torch.float64), xq, xq64, xf, xf64))
+        for ps in range(3):
+            for i, w_c, w_t, w64, xq, xq64, xf, xf64 in layers:
+                for wname, w in (("contig", w_c), ("noncontig", w_t)):
+                    for aname, x, x64 in (("qint8", xq, xq64), ("float", xf, xf64)):
+                        c = [ps, i, wname, aname]
+                        if only and only != c:
+                            continue
+                        fields = {"kind": "large", "act": aname, "weight": "qint8", "grouped": False, "dtype": dtname, "family": "exact", "bias": False, "live": True}
+                        call(c, fields, f"F.linear pass {ps + 1} layer {i + 1} of {n} live layers ({wname} weight, {aname} activations) {dtname}", lambda x=x, w=w: F.linear(x, w), x64, w64, None, True, K)
+            flush()
+        return
     if what == "repeat":
         # repetition ladder: many same-shaped calls, every output kept and judged only after the last call
         for wkind in ("qint8", "qfloat8_e4m3fn", "qint4"):
